@@ -71,6 +71,14 @@ def fake_host(kind):
         return m
     # the platform's named constants (errno.ETIMEDOUT, signal.SIGBUS, socket.AF_INET6, socket.SOCK_STREAM ...)
     econst = {n: i for i, n in errs.items()}
+    if kind == 'darwin':
+        # Darwin's ALIASES (two names, one number): on a Darwin host errno.EWOULDBLOCK is EAGAIN's 35, not Linux's 11
+        for alias, name in (('EWOULDBLOCK', 'EAGAIN'), ('EOPNOTSUPP', 'ENOTSUP'), ('ELAST', 'EQFULL'), ('EDEADLOCK', 'EDEADLK')):
+            if name in econst:
+                econst[alias] = econst[name]
+    elif kind == 'other':
+        for alias in ('EWOULDBLOCK', 'EAGAIN', 'EDEADLOCK', 'EDEADLK', 'ENOTSUP', 'EOPNOTSUPP', 'ETIMEDOUT', 'EINTR', 'ENOENT'):
+            econst.setdefault(alias, 150 + len(alias))
     sconst = dict(sigs)
     kconst = dict(afs)
     kconst.update(socks)
